@@ -30,3 +30,35 @@ def optInt (j : Json) (k : String) : Except String (Option Int) :=
   | some v => do pure (some (← v.getInt?))
 
 end Mcp.Drv
+
+namespace Mcp.Drv
+open Lean
+
+/-- Line loop of a component driver: one JSON op per input line (`{"c":"<component>.<op>",…}`), one JSON outcome per
+    output line. Errors of the model side are reported in-band as `{"model_error":…}` and never abort the run. -/
+partial def runLoop (handle : String → Json → Except String Json) : IO Unit := do
+  let hin ← IO.getStdin
+  let hout ← IO.getStdout
+  let rec loop : IO Unit := do
+    let line ← hin.getLine
+    if line.isEmpty then return ()
+    let line := line.trimAscii.toString
+    if line.isEmpty then loop else
+    let out := match Json.parse line with
+      | .error e => Json.mkObj [("model_error", Json.str s!"parse: {e}")]
+      | .ok j =>
+        match getStr j "c" with
+        | .error e => Json.mkObj [("model_error", Json.str e)]
+        | .ok c =>
+          let op := match c.splitOn "." with
+            | _ :: rest => ".".intercalate rest
+            | [] => ""
+          match handle op j with
+          | .ok r => r
+          | .error e => Json.mkObj [("model_error", Json.str e)]
+    hout.putStrLn out.compress
+    loop
+  loop
+  hout.flush
+
+end Mcp.Drv
